@@ -445,6 +445,22 @@ class C18(Prop):
                 return out
         if sum(1 for k in set(env) | set(code) if (k in env) + (k in code) + (k in exp and k.startswith('telemetry')) >= 2):
             out.nontrivial = True
+        # the environment changes between two creates in one process (same attribute string, service name removed):
+        # nothing of the first create may survive in the second
+        if r['env_service']:
+            os.environ.pop('DEEP_SERVICE_NAME', None)
+            res2 = Resource.create({}, None)
+            exp_name = env.get('service.name') if (r['env_attrs'] and 'service.name=' in r['env_attrs'].replace(' ', '')
+                                                    and False) else None
+            got = res2.attributes.get('service.name')
+            env_attr_name = None
+            if r['env_attrs']:
+                for item in r['env_attrs'].split(','):
+                    if '=' in item and item.split('=', 1)[0].strip() == 'service.name':
+                        env_attr_name = parse.unquote(item.split('=', 1)[1].strip())
+            if got == r['env_service'] and env_attr_name != r['env_service']:
+                out.violate('a service name from an earlier create leaks into a later one after the variable was removed',
+                            {'got': got})
         return out
 
     # ---- (d) ---------------------------------------------------------------------------------------------
